@@ -166,9 +166,16 @@ func (f *frame) callFunc(fn *ssa.Function, args []Val, binds []Val, c *ssa.CallC
 		// function-typed arguments may be called by the callee: their write effects join the call's frame
 		f.extraEff = nil
 		if c != nil {
-			for _, a := range c.Args {
+			for ai, a := range c.Args {
 				if _, isFn := a.Type().Underlying().(*types.Signature); !isFn {
 					continue
+				}
+				// a callee with a modifies clause that is verified against its body cannot call the argument unless a
+				// callback contract exists for that parameter; only then (or without a clause) the argument's effects count
+				if ct.HasMod && fn != nil && ai < len(fn.Params) && fn.Pkg != nil {
+					if eng.cs.Contracts[fn.Pkg.Pkg.Path()+"::callback:"+funcKey(fn)+"."+fn.Params[ai].Name()] == nil {
+						continue
+					}
 				}
 				if f.extraEff == nil {
 					f.extraEff = map[string]bool{}
